@@ -345,6 +345,64 @@ class BannerEval(Harness):
         yield 'passed-iff-no-errors', obs['passed'] == (len(obs['errs']) == 0)
 
 
+class LegacyDirectives(Harness):
+    """a policy file in the deprecated format (hostkey_size_<type>, cakey_size_<type>, dh_modulus_size_<type>) for two key types, in several line orders:
+    it loads, and every listed size is the one compared - each type's host-key size and CA size come from that type's own lines."""
+    prop, ob = PROP, 'O12'
+    width = 64
+    T1, T2 = 'ssh-rsa-cert-v01@openssh.com', 'ssh-ed25519-cert-v01@openssh.com'
+
+    def __init__(self, order):
+        self.order = order
+        self.name = 'legacy-directives-%s' % order
+
+    def params(self):
+        return {'order': self.order}
+
+    def inputs(self):
+        return {'h1': sym_size('h1', 4), 'c1': sym_size('c1', 4), 'h2': sym_size('h2', 3), 'c2': sym_size('c2', 3), 'dh': sym_size('dh', 4)}
+
+    def run(self, M, inp):
+        Z = zx.shims.z_str
+        lines = {'h1': 'hostkey_size_%s = ' % self.T1 + Z(inp['h1']), 'c1': 'cakey_size_%s = ' % self.T1 + Z(inp['c1']),
+                 'h2': 'hostkey_size_%s = ' % self.T2 + Z(inp['h2']), 'c2': 'cakey_size_%s = ' % self.T2 + Z(inp['c2'])}
+        seq = {'grouped': ['h1', 'c1', 'h2', 'c2'], 'sizes-first': ['h1', 'h2', 'c1', 'c2'], 'second-ca-only': ['h1', 'c1', 'c2'], 'ca-first': ['c1', 'h1']}[self.order]
+        txt = 'name = "t"\nversion = 1\nhost keys = a\n'
+        for k in seq:
+            txt = txt + lines[k] + '\n'
+        txt = txt + 'dh_modulus_size_diffie-hellman-group-exchange-sha256 = ' + Z(inp['dh']) + '\n'
+        import io, contextlib
+        with contextlib.redirect_stdout(io.StringIO()), contextlib.redirect_stderr(io.StringIO()):
+            p = guarded(lambda: M.policy.Policy(policy_data=txt))
+        if isinstance(p, Exc):
+            return {'load': p}
+        hs = p._hostkey_sizes or {}
+        return {'sizes': {k: (v.get('hostkey_size'), v.get('ca_key_size')) for k, v in hs.items()}, 'dh': p._dh_modulus_sizes, 'seq': seq}
+
+    def check(self, inp, obs):
+        yield 'loads-without-error', 'load' not in obs
+        if 'load' in obs:
+            return
+        seq, sz = obs['seq'], obs['sizes']
+        ok = True
+        for t, hk, ck in ((self.T1, 'h1', 'c1'), (self.T2, 'h2', 'c2')):
+            if hk not in seq and ck not in seq:
+                ok = s_and(ok, t not in sz)
+                continue
+            if t not in sz:
+                ok = False
+                continue
+            got_h, got_c = sz[t]
+            if hk in seq:
+                ok = s_and(ok, got_h == inp[hk])
+            else:
+                ok = s_and(ok, got_h == 0)           # no host-key size was listed for this type: nothing (0) to compare, never another type's size
+            if ck in seq:
+                ok = s_and(ok, got_c == inp[ck])
+        yield 'each-size-from-its-own-line', ok
+        yield 'dh-size', obs['dh'] is not None and obs['dh'].get('diffie-hellman-group-exchange-sha256') == inp['dh']
+
+
 class Monotone(Harness):
     """subset mode: deleting an element of a passing peer's list keeps it passing; larger-keys mode: growing a key keeps passing."""
     prop, ob = PROP, 'O11'
@@ -522,6 +580,8 @@ def tasks(tier):
         for larger in (False, True):
             for nopt in ((0, 1) if q else (0, 1, 2)):
                 T.append(TextPolicyEval(subset, larger, nopt))
+    for order in ('grouped', 'sizes-first', 'second-ca-only', 'ca-first'):
+        T.append(LegacyDirectives(order))
     T.append(_worker_policy_harness())
     T.append(CopiedPolicyEval(False))
     T.append(CopiedPolicyEval(True))
@@ -538,6 +598,8 @@ def harness_by_name(name, params):
         return BannerEval(params['n'], params['with_kex'])
     if k == 'textpolicy':
         return TextPolicyEval(params['subset'], params['larger'], params['nopt'])
+    if k == 'legacy':
+        return LegacyDirectives(params['order'])
     if k == 'copiedpolicy':
         return CopiedPolicyEval(params['dh'])
     if k == 'workerpolicy':
